@@ -39,8 +39,8 @@ fn main() {
             basesubjects::base_subjects(),
             "one decode of one chain type per run from a simulated byte stream: clean (any chunking, EINTR), cut (EOF / I/O error inside the encoding) or damaged (bit flips, overwrites with extreme values, truncation, splices, trailing bytes), under a counting allocator; non-trivial = a stream fault or damage fired, distinct by event-log fingerprint",
             "C05: round trip and exact consumption on clean streams, failure on cut streams, never a panic, bounded allocation, and whenever damaged bytes decode the value re-encodes to exactly the consumed bytes",
-            3_000_000,
-            80_000_000,
+            1_500_000,
+            60_000_000,
         ),
         "C16" => (
             cc_subjects::cc_subjects(),
